@@ -31,6 +31,7 @@ type ReqSpec struct {
 	//         never (never reads; ends the context late)
 	//         early (ends the context right after SendWithReplies returned, before any reply; ReadAfter: then drains)
 	//         reply / replyearly (SendWithReply; replyearly: the parent context is cancelled while it waits)
+	//         sendfail (SendWithReplies whose command bus fails: it returns an error after the listener was started)
 	Caller    string   `json:"c"`
 	End       string   `json:"e"` // how the context ends: cancel | parent | timeout (= nobody ends it, the backend's timeout does)
 	Outcomes  []string `json:"o"` // per delivery: ok | err | bad | panic | pubfail | slow (= ok, but only after the listener finished)
@@ -54,6 +55,7 @@ type Scenario struct {
 	Reqs      []ReqSpec `json:"r"`
 	Park      *ParkSpec `json:"p,omitempty"`
 	Foreign   int       `json:"f,omitempty"` // notifications with a foreign / missing operation id injected on the reply topic(s)
+	CloseSub  bool      `json:"k,omitempty"` // the reply Pub/Sub is closed before the callers end their contexts ("subscriber closed" path)
 	Tag       string    `json:"g,omitempty"`
 }
 
@@ -88,6 +90,18 @@ func acks(outcome string, ackErrs bool) bool {
 // Normalise cuts every script after its first acking outcome and appends "ok" when none acks.
 func (sc *Scenario) Normalise() {
 	for i := range sc.Reqs {
+		if sc.CloseSub {
+			// once the reply Pub/Sub is closed every reply Publish fails and the command is redelivered for ever:
+			// no handler may still be running then
+			if sc.Reqs[i].Caller == "replyearly" {
+				sc.Reqs[i].Caller = "reply"
+			}
+			for j, x := range sc.Reqs[i].Outcomes {
+				if x == "slow" {
+					sc.Reqs[i].Outcomes[j] = "ok"
+				}
+			}
+		}
 		o := sc.Reqs[i].Outcomes
 		cut := -1
 		for j, x := range o {
@@ -298,7 +312,8 @@ func Run(sc Scenario) *Result {
 	defer message.SetVerifHook(nil)
 
 	logger := watermill.NopLogger{}
-	pubSub := gochannel.NewGoChannel(gochannel.Config{}, logger)
+	pubSub := gochannel.NewGoChannel(gochannel.Config{}, logger)  // commands
+	replyPS := gochannel.NewGoChannel(gochannel.Config{}, logger) // reply notifications
 	stopAll := make(chan struct{})
 	var watchers sync.WaitGroup
 
@@ -329,7 +344,7 @@ func Run(sc Scenario) *Result {
 		timeout = &d
 	}
 	backend, err := requestreply.NewPubSubBackend[Res](requestreply.PubSubBackendConfig{
-		Publisher: &recordingPublisher{inner: pubSub, run: rs},
+		Publisher: &recordingPublisher{inner: replyPS, run: rs},
 		SubscriberConstructor: func(p requestreply.PubSubBackendSubscribeParams) (message.Subscriber, error) {
 			i := p.Command.(*Cmd).Req
 			op := string(p.OperationID)
@@ -347,7 +362,7 @@ func Run(sc Scenario) *Result {
 				})
 			}
 			rec.Log("op", strconv.Itoa(i))
-			return pubSub, nil
+			return replyPS, nil
 		},
 		GenerateSubscribeTopic: func(p requestreply.PubSubBackendSubscribeParams) (string, error) {
 			return replyTopic(string(p.OperationID)), nil
@@ -377,6 +392,10 @@ func Run(sc Scenario) *Result {
 	}
 	marshaler := cqrs.JSONMarshaler{}
 	bus, _ := cqrs.NewCommandBusWithConfig(pubSub, cqrs.CommandBusConfig{
+		GeneratePublishTopic: func(cqrs.CommandBusGeneratePublishTopicParams) (string, error) { return "commands", nil },
+		Marshaler:            marshaler, Logger: logger,
+	})
+	failBus, _ := cqrs.NewCommandBusWithConfig(failingPublisher{}, cqrs.CommandBusConfig{
 		GeneratePublishTopic: func(cqrs.CommandBusGeneratePublishTopicParams) (string, error) { return "commands", nil },
 		Marshaler:            marshaler, Logger: logger,
 	})
@@ -538,7 +557,12 @@ func Run(sc Scenario) *Result {
 				close(ended[i])
 				return
 			}
-			ch, cancel, err := requestreply.SendWithReplies[Res](parent, bus, backend, &Cmd{Req: i})
+			theBus := requestreply.CommandBus(bus)
+			if spec.Caller == "sendfail" {
+				theBus = failBus
+				rec.Log("cy", is) // SendWithReplies itself cancels the context when sending fails
+			}
+			ch, cancel, err := requestreply.SendWithReplies[Res](parent, theBus, backend, &Cmd{Req: i})
 			markSent()
 			if err != nil {
 				rec.Log("sr", is, "err")
@@ -656,6 +680,13 @@ func Run(sc Scenario) *Result {
 
 	// ---------------------------------------------------------------- controller
 	stuck := func(s string) { res.Stuck = append(res.Stuck, s) }
+	// once one wait ran into the liveness bound the scenario has failed: the remaining phases only get a short bound
+	bound := func() time.Duration {
+		if len(res.Stuck) > 0 {
+			return 2 * time.Second
+		}
+		return liveness
+	}
 	deadline := time.Now().Add(liveness)
 	left := func() time.Duration {
 		d := time.Until(deadline)
@@ -681,7 +712,7 @@ func Run(sc Scenario) *Result {
 			op := rs.opOf[j%n]
 			rs.mu.Unlock()
 			rec.Log("fo", strconv.Itoa(j))
-			_ = pubSub.Publish(replyTopic(op), m)
+			_ = replyPS.Publish(replyTopic(op), m)
 		}
 	}
 	if sc.Park != nil && sc.Park.Req < n {
@@ -710,7 +741,7 @@ func Run(sc Scenario) *Result {
 		}
 	}
 	// "late": every request whose script does not wait for the listener has had its command acked
-	deadline = time.Now().Add(liveness)
+	deadline = time.Now().Add(bound())
 	for i := 0; i < n; i++ {
 		slow := false
 		for _, o := range sc.Reqs[i].Outcomes {
@@ -718,15 +749,25 @@ func Run(sc Scenario) *Result {
 				slow = true
 			}
 		}
-		if slow || sc.Reqs[i].Caller == "replyearly" {
+		if slow || sc.Reqs[i].Caller == "replyearly" || sc.Reqs[i].Caller == "sendfail" {
 			continue
 		}
 		if !waitCh(ackedFinal[i], left()) {
 			stuck("command of request " + strconv.Itoa(i) + " never acked")
 		}
 	}
+	if sc.CloseSub {
+		// the reply Pub/Sub goes away while the contexts are still alive: listeners see their subscription closed
+		rec.Log("gc")
+		gdone := make(chan struct{})
+		go func() { _ = replyPS.Close(); close(gdone) }()
+		if !waitCh(gdone, bound()) {
+			stuck("reply Pub/Sub close")
+		}
+		time.Sleep(2 * time.Millisecond) // no meaning: gives the listeners a chance to take the closed-subscription path first
+	}
 	close(late)
-	deadline = time.Now().Add(liveness)
+	deadline = time.Now().Add(bound())
 	for i := 0; i < n; i++ {
 		rs.mu.Lock()
 		_, started := rs.opOf[i]
@@ -773,9 +814,9 @@ func Run(sc Scenario) *Result {
 		}
 	}
 	// every handler invocation must have been settled by now (slow handlers returned when their listener finished)
-	deadline = time.Now().Add(liveness)
+	deadline = time.Now().Add(bound())
 	for i := 0; i < n; i++ {
-		if sc.Reqs[i].Caller == "replyearly" || len(res.Stuck) > 0 {
+		if sc.Reqs[i].Caller == "replyearly" || sc.Reqs[i].Caller == "sendfail" || len(res.Stuck) > 0 {
 			continue
 		}
 		if !waitCh(ackedFinal[i], left()) {
@@ -786,15 +827,16 @@ func Run(sc Scenario) *Result {
 	go func() {
 		_ = router.Close()
 		_ = pubSub.Close()
+		_ = replyPS.Close()
 		close(closeDone)
 	}()
-	if !waitCh(closeDone, liveness) {
+	if !waitCh(closeDone, bound()) {
 		stuck("router/pubsub close")
 	}
 	close(stopAll)
 	wdone := make(chan struct{})
 	go func() { watchers.Wait(); close(wdone) }()
-	waitCh(wdone, liveness)
+	waitCh(wdone, bound())
 	// goroutine census on the listener frame
 	var cnt int
 	var dump string
@@ -861,13 +903,19 @@ func (r *Result) ListenerStreams() []string {
 		}
 		return v
 	}
+	accepted := map[string]bool{} // invocation -> its reply Publish returned nil
+	for _, e := range r.Events {
+		if e.Kind == "pr" && e.F[1] == "ok" {
+			accepted[e.F[0]] = true
+		}
+	}
 	for _, e := range r.Events {
 		switch e.Kind {
 		case "op":
 			started[atoi(e.F[0])] = true
 		case "pc":
-			// pc,k,o,res,err,st,fwd
-			if e.F[5] == "1" {
+			// pc,k,o,res,err,st,fwd – a notification the reply topic accepted (a failing Publish delivers nothing)
+			if e.F[5] == "1" && accepted[e.F[0]] {
 				bad := "0"
 				if raw, err := hex.DecodeString(e.F[2]); err == nil && strings.HasPrefix(string(raw), "bad") {
 					bad = "1"
@@ -896,6 +944,10 @@ func (r *Result) ListenerStreams() []string {
 			add(atoi(e.F[0]), "X")
 		case "cy":
 			add(atoi(e.F[0]), "Y")
+		case "gc":
+			for i := 0; i < n; i++ {
+				add(i, "G")
+			}
 		case "fin":
 			add(atoi(e.F[0]), "F")
 		case "zz":
@@ -954,6 +1006,9 @@ func Emit(out *wh.Out, res *Result) {
 	if sc.Park != nil {
 		out.Count(fmt.Sprintf("park.cancel%v", sc.Park.Cancel))
 	}
+	if sc.CloseSub {
+		out.Count("reply-pubsub-closed-early")
+	}
 	out.Add("events", len(res.Events))
 	for _, e := range res.Events {
 		switch e.Kind {
@@ -973,3 +1028,10 @@ func Emit(out *wh.Out, res *Result) {
 		out.Note("LEFTOVER listener goroutine: " + strings.ReplaceAll(res.LeftDump, "\n", " | "))
 	}
 }
+
+type failingPublisher struct{}
+
+func (failingPublisher) Publish(string, ...*message.Message) error {
+	return errors.New("scripted command publish failure")
+}
+func (failingPublisher) Close() error { return nil }
